@@ -15,7 +15,13 @@ _DT["t"] = DTree
 GLUE_PREAMBLE = "let rec d_dtree s = (%s) s" % DTree.dec()
 VIT = CheckFn("viterbi", "Model.Viterbi", "vit_check",
               Tup(GrammarT, List(Tup(Nat, List(TropV))), List(Nat), Nat, Tup(Nat, DTreeRec, TropV, TropB)), imports=["Model.SumProduct"])
-CHECKFNS = [VIT]
+# the code-shaped model of viterbi.py (Model/ViterbiAlg.v): F_viterbi with pointer tables, the
+# per-component loop with the pointer merge, reconstruct; compared with the implementation's derivation
+ALG = CheckFn("viterbi_alg", "Model.ViterbiAlg", "vit_alg_check",
+              Tup(GrammarT, List(Tup(Nat, List(TropV))), List(Nat), Tup(Nat, QQ), Tup(Nat, DTreeRec)), imports=["Model.SumProduct"])
+CHECKFNS = [VIT, ALG]
+KMAX = 1000                      # viterbi's defaults, passed to the model as well
+TOL = Fraction(1, 10**6)
 ASSUMPTIONS = [
     "integer log-weights, so float arithmetic is exact and ties are frequent; any optimal derivation is accepted",
     "the optimum is the exact Viterbi-semiring least fixed point computed by the Coq model (Kleene iteration to a fixed point); start assignments whose optimum is -inf or +inf are outside the property and skipped",
@@ -96,7 +102,7 @@ def classify(spec, tree_or_exc):
 def run(tier, seed):
     rng = random.Random(seed)
     n = int(os.environ.get("VERIF_N", 0)) or (260 if tier == "quick" else 4000)
-    violations = []; vals = []; meta = []; feats = {}; distinct = set()
+    violations = []; vals = []; avals = []; meta = []; feats = {}; distinct = set()
     import sys
     sys.setrecursionlimit(3000)
     for i in range(n):
@@ -122,6 +128,7 @@ def run(tier, seed):
                 obs = (0, tree, tv(dw) if not isinstance(dw, tuple) else (2, Fraction(0)), SRV.obs(spv))
                 note = dw[1] if isinstance(dw, tuple) else None
             vals.append((grammar_wire(spec), weights_wire(spec, SRV), list(xi), K_ENCL, obs))
+            avals.append((grammar_wire(spec), weights_wire(spec, SRV), list(xi), (KMAX, TOL), (obs[0], obs[1])))
             meta.append((spec, list(xi), obs, note))
     codes, nk = run_model(VIT, vals, seed=seed, coq_sample=6 if tier == "quick" else 40, tag="c04")
     skipped = {30: 0, 31: 0}; judged = 0
@@ -139,7 +146,24 @@ def run(tier, seed):
                                     oracle={5: "wf_dtree_b", 6: "weight = optimum", 7: "derive weight", 8: "optimum"}.get(c, "optimum finite => derivation"),
                                     corr="C04 / corr:viterbi", failing_input_found=c in WHAT, call="fggs.viterbi(fgg, %r)" % (tuple(xi),),
                                     finding_key=classify(spec, obs)))
-    cov = dict(evaluations=len(vals), distinct_nontrivial=len(distinct), judged=judged,
+    # --- the code-shaped model (pointer tables, merge, reconstruct) against the same derivations
+    acodes, ank = run_model(ALG, avals, seed=seed, coq_sample=4 if tier == "quick" else 30, tag="c04alg")
+    AWHAT = {1: "viterbi raised although the code-shaped model finds a derivation of finite weight",
+             5: "returned derivation is not well formed (judged by the model-side check)",
+             10: "the implementation's derivation and the code-shaped model's derivation have different weights (one of them is not optimal; vit_check decides which)"}
+    alg = dict(exact_agreement=0, agree_up_to_ties=0, skipped_value_not_finite=0, skipped_model_not_converged=0, compared=0)
+    for (spec, xi, obs, note), c in zip(meta, acodes):
+        if c == 31: alg["skipped_value_not_finite"] += 1; continue
+        if c in (33, 34): alg["skipped_model_not_converged"] += 1; continue
+        alg["compared"] += 1
+        if c == 0: alg["exact_agreement"] += 1; continue
+        if c == 32: alg["agree_up_to_ties"] += 1; continue
+        violations.append(Violation(AWHAT.get(c, "framework inconsistency in the code-shaped viterbi model (code %d)" % c) + ((" [" + note + "]") if note else ""),
+                                    case=dict(spec=gen.spec_jsonable(spec), start_asst=xi), observed=obs,
+                                    oracle={1: "model finds a finite derivation", 5: "wf_dtree_b", 10: "weight = model's value"}.get(c, "viterbi_model"),
+                                    corr="C04 / corr:viterbi_alg (Model/ViterbiAlg.v viterbi_model)", failing_input_found=c in (1, 5),
+                                    call="fggs.viterbi(fgg, %r)" % (tuple(xi),), finding_key=classify(spec, obs)))
+    cov = dict(evaluations=len(vals), viterbi_model=alg, exact_agreement=alg["exact_agreement"], kernel_reevaluated_alg=ank, distinct_nontrivial=len(distinct), judged=judged,
                skipped_divergent=skipped[30], skipped_optimum_not_finite=skipped[31],
                rule="random FGG specs with integer log-weights in {-inf,-2,-1,0} (two thirds non-recursive, one third recursive incl. weight-0 cycles and non-linear recursion), up to two start assignments each; forced shapes: rules whose attached nodes are all external, isolated nodes, size-1 domains, nullary factors, repeated attachments; distinct by spec, all with >= 1 rule",
                feature_histogram=feats, kernel_reevaluated=nk,
